@@ -853,7 +853,24 @@ func RefactorSkeleton(seed int64, cfg *Config) *Program {
 		&Call{Callee: "USE", Alias: "UR1", Binds: []Binding{{Id: "x", Exp: ref("MIDR", "rec_one", "label")}}})
 	top.Outs = append(top.Outs, Param{Name: "ur", Type: TInt}, Param{Name: "ur1", Type: TInt})
 	top.Ret = append(top.Ret, Binding{Id: "ur", Exp: ref("UR", "y")}, Binding{Id: "ur1", Exp: ref("UR1", "y")})
-	p.Pipelines = []*Pipeline{inner, gated, outerg, leafr, midr, top}
+	// a struct-typed pipeline input handed on member by member through a
+	// wildcard (`* = self.sx_in`), one and two pipeline levels deep
+	wsx := src(&Stage{Name: "WSX", Ins: []Param{{Name: "a", Type: TInt}, {Name: "b", Type: TBool}, {Name: "f", Type: TFile}}, Outs: []Param{{Name: "wy", Type: TInt}}})
+	p.Stages = append(p.Stages, wsx)
+	fwd := &Pipeline{Name: "FWD", Ins: []Param{{Name: "sx_in", Type: tsx}, {Name: "sx_in2", Type: tsx}}, Outs: []Param{{Name: "wy", Type: TInt}, {Name: "wy2", Type: TInt}},
+		Calls: []*Call{
+			{Callee: "WSX", Binds: []Binding{{Id: "*", Exp: self("sx_in")}}},
+			{Callee: "WSX", Alias: "WSX2", Binds: []Binding{{Id: "*", Exp: self("sx_in2")}}},
+		},
+		Ret: []Binding{{Id: "wy", Exp: ref("WSX", "wy")}, {Id: "wy2", Exp: ref("WSX2", "wy")}}}
+	outerf := &Pipeline{Name: "OUTERF", Ins: []Param{{Name: "sx_in", Type: tsx}}, Outs: []Param{{Name: "wy", Type: TInt}, {Name: "wy2", Type: TInt}},
+		Calls: []*Call{{Callee: "FWD", Binds: []Binding{{Id: "sx_in", Exp: self("sx_in")}, {Id: "sx_in2", Exp: self("sx_in")}}}},
+		Ret:   []Binding{{Id: "*", Exp: ref("FWD")}}}
+	sxLit := &Exp{Kind: EStruct, Keys: []string{"a", "b", "f"}, Elems: []*Exp{lit(int64(g.r.Intn(100))), {Kind: EBool, B: g.pct(50)}, {Kind: ENull}}}
+	top.Calls = append(top.Calls, &Call{Callee: "OUTERF", Binds: []Binding{{Id: "sx_in", Exp: sxLit}}})
+	top.Outs = append(top.Outs, Param{Name: "fwy", Type: TInt}, Param{Name: "fwy2", Type: TInt})
+	top.Ret = append(top.Ret, Binding{Id: "fwy", Exp: ref("OUTERF", "wy")}, Binding{Id: "fwy2", Exp: ref("OUTERF", "wy2")})
+	p.Pipelines = []*Pipeline{inner, gated, outerg, leafr, midr, fwd, outerf, top}
 	p.Top = &Call{Callee: "TOP"}
 	return p
 }
